@@ -26,7 +26,10 @@
    voter set ([L3Base l] = [step (cfg s i) (base3 s) l]) and these extra guards:
      LTimeout i        applied = commit                      (hasConfigChangeToApply)
      LPropose i p      a config change only if not pending   (handleLeaderPropose)
-     LSendAE ...       leaderCommit = commit                 (makeReplicateMessage)
+     LSendAE ...       at most one config change above leaderCommit among the entries
+                       up to the last one sent (the code sends leaderCommit = commit, for
+                       which this always holds: one_cc_above_commit; smaller values are
+                       what InstallSnapshot stands for, stage 2)
      LBecomeLeader i   at most one config change above commit (else the code panics in
                        preLeaderPromotionHandleConfigChange; proved unreachable)
    LRestart is replaced by [L3Crash i c m a]: as LRestart i c m, the applied index
@@ -88,7 +91,7 @@ Section Cfg.
     match l with
     | LTimeout i => applied s i = commit (nodes n i)
     | LPropose i p => is_cc (mkE (term (nodes n i)) p) = true -> pending s i = false
-    | LSendAE i _ _ lc => lc = commit (nodes n i)
+    | LSendAE i prev len lc => ccs (firstn (prev + len) (log (nodes n i))) lc <= 1
     | LBecomeLeader i => ccs (log (nodes n i)) (commit (nodes n i)) <= 1
     | LRestart _ _ _ => False
     | _ => True
@@ -158,7 +161,7 @@ Section Cfg.
     match l with
     | LTimeout i => applied s i =? commit (nodes n i)
     | LPropose i p => negb (is_cc (mkE (term (nodes n i)) p)) || negb (pending s i)
-    | LSendAE i _ _ lc => lc =? commit (nodes n i)
+    | LSendAE i prev len lc => ccs (firstn (prev + len) (log (nodes n i))) lc <=? 1
     | LBecomeLeader i => ccs (log (nodes n i)) (commit (nodes n i)) <=? 1
     | LRestart _ _ _ => false
     | _ => true
